@@ -1090,7 +1090,9 @@ pub fn ident_accepts_bignum_tag(cddl: &CDDL, ident: &Identifier, tag: u64) -> bo
   match lookup_ident(ident.ident) {
     Token::BIGUINT => return tag == 2,
     Token::BIGNINT => return tag == 3,
-    Token::BIGINT => return tag == 2 || tag == 3,
+    // RFC 8610 Appendix D: integer = int / bigint, unsigned = uint / biguint
+    Token::BIGINT | Token::INTEGER => return tag == 2 || tag == 3,
+    Token::UNSIGNED => return tag == 2,
     _ => (),
   }
 
